@@ -22,6 +22,14 @@ class _NeedOracle(Exception):
     pass
 
 
+class _Continue(Exception):
+    pass
+
+
+class _Break(Exception):
+    pass
+
+
 class Path:
     def __init__(self):
         self.decisions = []     # (condition text, bool)
@@ -247,8 +255,12 @@ class PathInterp:
             self._for(st, ev)
         elif isinstance(st, ast.Raise):
             raise _Return(L('raise'))
-        elif isinstance(st, (ast.Pass, ast.Continue, ast.Break)):
+        elif isinstance(st, ast.Pass):
             return
+        elif isinstance(st, ast.Continue):
+            raise _Continue()
+        elif isinstance(st, ast.Break):
+            raise _Break()
         elif isinstance(st, ast.Try):
             self._block(st.body, ev)
         elif isinstance(st, ast.With):
@@ -280,7 +292,12 @@ class PathInterp:
                 if len(rng) <= 64:
                     for i in rng:
                         ev.env[st.target.id] = C(i)
-                        self._block(st.body, ev)
+                        try:
+                            self._block(st.body, ev)
+                        except _Continue:
+                            continue
+                        except _Break:
+                            break
                     return
         # symbolic loop: one pass with a symbolic index, sinks tagged as summed over the loop
         if isinstance(st.target, ast.Name):
@@ -292,5 +309,8 @@ class PathInterp:
         self._tags.append('loop@%s' % norm(it))
         try:
             self._block(st.body, ev)
+        except (_Continue, _Break):
+            # one symbolic pass stands for every iteration: the rest of the body is not reached under this path's decisions
+            pass
         finally:
             self._tags.pop()
